@@ -71,7 +71,8 @@ PROPS = {
     'C15': {
         'level': 'exploration',
         'rule': 'distinct (chain depth, leaf ending or missing model, parallel parent activity, runtime, client mode, answer order) configurations',
-        'parts': [part('sub', SUB, 1500, 40000, judge=True, props=['C15'], chunk=80)],
+        'parts': [part('sub', SUB, 1500, 40000, judge=True, props=['C15'], chunk=80),
+                  part('sqlite', SUB, 50, 1000, judge=True, props=['C15'], chunk=8, store='sqlite', restart=0.7)],
     },
     'C16': {
         'level': 'exploration',
